@@ -1,4 +1,5 @@
 import Thanos.Lemmas.Downsample
+import Thanos.Lemmas.DownsampleRaw
 import Thanos.Generated.Facts
 /-
   C36 — Raw downsampling aggregates are exact.
@@ -90,6 +91,209 @@ theorem C36_window (t r : Int) (ht : 0 ≤ t) (hr : 0 < r) :
     t ≤ currentWindow t r ∧ currentWindow t r < t + r ∧ (currentWindow t r + 1) % r = 0 :=
   ⟨currentWindow_ge ht hr, currentWindow_lt ht hr, currentWindow_aligned ht hr⟩
 
+/-! ### the whole series -/
+
+/-- last timestamp of a (non-empty) batch -/
+def lastT (b : List Pt) : Int := match b.getLast? with | some p => p.1 | none => 0
+
+/-- the non-NaN batches DownsampleRaw cuts the series into for `numChunks = nc` -/
+def batchesOf (r : Int) (nc : Nat) (data : List Raw) : List (List Pt) :=
+  ptBatches r (data.length / nc + 1) data.length data
+
+/-- the hypotheses of the whole-series theorems: strictly increasing timestamps ≥ 0 (below
+    MaxInt64), finite values -/
+structure RawOK (data : List Raw) : Prop where
+  sorted : SortedRaw data
+  nonneg : ∀ p ∈ data, 0 ≤ p.1
+  bounded : ∀ p ∈ data, p.1 < maxInt64
+  finite : ∀ p ∈ dropNaN data, Finite p.2
+
+private theorem batch_facts {r : Int} {nc : Nat} {data : List Raw} (ok : RawOK data)
+    (hflat : (batchesOf r nc data).flatten = dropNaN data) (hne : ∀ b ∈ batchesOf r nc data, b ≠ []) :
+    ∀ b ∈ batchesOf r nc data, Sorted b ∧ (∀ p ∈ b, 0 ≤ p.1) ∧ (∀ p ∈ b, p.1 < maxInt64) ∧ (∀ p ∈ b, Finite p.2) ∧
+      ∃ t0 v0 lt lv, b.head? = some (t0, v0) ∧ b.getLast? = some (lt, lv) ∧ lastT b = lt := by
+  intro b hb
+  have hsub : ∀ p ∈ b, p ∈ dropNaN data := fun p hp => hflat ▸ List.mem_flatten.mpr ⟨b, hb, hp⟩
+  have hsorted : Sorted (batchesOf r nc data).flatten := hflat ▸ sorted_dropNaN ok.sorted
+  refine ⟨(List.pairwise_flatten.mp hsorted).1 b hb, fun p hp => nonneg_dropNaN ok.nonneg p (hsub p hp),
+    fun p hp => ok.bounded _ (mem_dropNaN (hsub p hp)), fun p hp => ok.finite p (hsub p hp), ?_⟩
+  have := hne b hb
+  cases b with
+  | nil => exact absurd rfl this
+  | cons p ps =>
+    cases hl : (p :: ps).getLast? with
+    | none => simp at hl
+    | some l => exact ⟨p.1, p.2, l.1, l.2, rfl, rfl, by simp [lastT, hl]⟩
+
+/-- **C36, per window, for the whole series.**  DownsampleRaw cuts the non-NaN samples into
+    non-empty batches that never split a window (`Aligned`), so the window runs of the series are
+    the window runs of the batches; it produces one chunk per batch, and the count / sum / min /
+    max sub-chunks of the chunks, concatenated, hold for every window run `g` of every batch `b`
+    one sample at `min(window end, last timestamp of b)` with `|g|`, `Σ g`, `min g`, `max g`. -/
+theorem C36_windows (r : Int) (hr : 0 < r) (data : List Raw) (nc : Nat) (hnc : 0 < nc) (ok : RawOK data) :
+    ∃ chunks, downsampleRaw data r nc = some chunks ∧
+      let bs := batchesOf r nc data
+      bs.flatten = dropNaN data ∧ (∀ b ∈ bs, b ≠ []) ∧ Aligned r bs ∧
+      bs.flatMap (runs r) = runs r (dropNaN data) ∧
+      chunks.length = bs.length ∧
+      chunks.flatMap (·.count) = bs.flatMap (fun b => (runs r b).map fun g => (min g.1 (lastT b), (g.2.length : Int))) ∧
+      chunks.flatMap (·.sum) = bs.flatMap (fun b => (runs r b).map fun g => (min g.1 (lastT b), (g.2.map (·.2)).sum)) ∧
+      chunks.flatMap (fun c => c.min.map fun p => (p.1, some p.2)) =
+        bs.flatMap (fun b => (runs r b).map fun g => (min g.1 (lastT b), (g.2.map (·.2)).min?)) ∧
+      chunks.flatMap (fun c => c.max.map fun p => (p.1, some p.2)) =
+        bs.flatMap (fun b => (runs r b).map fun g => (min g.1 (lastT b), (g.2.map (·.2)).max?)) := by
+  obtain ⟨chunks, hc, hflat, hne, hal, hmap⟩ := downsampleRaw_batches r hr data nc hnc ok.sorted ok.nonneg
+  have hbf := batch_facts (r := r) (nc := nc) ok hflat hne
+  -- per batch: C36_batch
+  have hper : ∀ b ∈ batchesOf r nc data, ∀ c, floatBatch b r = some c →
+      c.count = (runs r b).map (fun g => (min g.1 (lastT b), (g.2.length : Int))) ∧
+      c.sum = (runs r b).map (fun g => (min g.1 (lastT b), (g.2.map (·.2)).sum)) ∧
+      c.min.map (fun p => (p.1, some p.2)) = (runs r b).map (fun g => (min g.1 (lastT b), (g.2.map (·.2)).min?)) ∧
+      c.max.map (fun p => (p.1, some p.2)) = (runs r b).map (fun g => (min g.1 (lastT b), (g.2.map (·.2)).max?)) := by
+    intro b hb c hfc
+    obtain ⟨hs, h0, _, hf, t0, v0, lt, lv, _, hl, hlt⟩ := hbf b hb
+    obtain ⟨c', hc', h1, h2, h3, h4⟩ := C36_batch r hr b lt lv hl h0 hs hf
+    rw [hfc] at hc'
+    cases hc'
+    rw [hlt]
+    exact ⟨h1, h2, h3, h4⟩
+  refine ⟨chunks, hc, hflat, hne, hal, (runs_flatten_aligned r _ hal hne ▸ hflat ▸ rfl), ?_, ?_, ?_, ?_, ?_⟩
+  · have := congrArg List.length hmap
+    simpa [batchesOf] using this
+  · exact flatMap_of_map_some _ _ _ _ _ hmap (fun b hb c h => (hper b hb c h).1)
+  · exact flatMap_of_map_some _ _ _ _ _ hmap (fun b hb c h => (hper b hb c h).2.1)
+  · exact flatMap_of_map_some _ _ _ _ _ hmap (fun b hb c h => (hper b hb c h).2.2.1)
+  · exact flatMap_of_map_some _ _ _ _ _ hmap (fun b hb c h => (hper b hb c h).2.2.2)
+
+/-- **C36, values, independent of the batching**: the concatenated count (sum, min, max)
+    sub-chunks carry, in order, `|g|` (`Σ g`, `min g`, `max g`) for the window runs `g` of the
+    non-NaN samples of the whole series — with `C36_runs_spec`: for every window that contains a
+    non-NaN sample exactly one output sample, aggregating exactly the samples of that window. -/
+theorem C36_values (r : Int) (hr : 0 < r) (data : List Raw) (nc : Nat) (hnc : 0 < nc) (ok : RawOK data) :
+    ∃ chunks, downsampleRaw data r nc = some chunks ∧
+      (chunks.flatMap (·.count)).map (·.2) = (runs r (dropNaN data)).map (fun g => (g.2.length : Int)) ∧
+      (chunks.flatMap (·.sum)).map (·.2) = (runs r (dropNaN data)).map (fun g => (g.2.map (·.2)).sum) ∧
+      (chunks.flatMap (·.min)).map (fun p => some p.2) = (runs r (dropNaN data)).map (fun g => (g.2.map (·.2)).min?) ∧
+      (chunks.flatMap (·.max)).map (fun p => some p.2) = (runs r (dropNaN data)).map (fun g => (g.2.map (·.2)).max?) := by
+  obtain ⟨chunks, hc, _, _, _, hruns, _, h1, h2, h3, h4⟩ := C36_windows r hr data nc hnc ok
+  refine ⟨chunks, hc, ?_, ?_, ?_, ?_⟩
+  · rw [h1, flatMap_runs_values, hruns]
+  · rw [h2, flatMap_runs_values, hruns]
+  · have : (chunks.flatMap (·.min)).map (fun p => some p.2) =
+        (chunks.flatMap (fun c => c.min.map fun p => (p.1, some p.2))).map (·.2) := by
+      simp [List.map_flatMap, List.map_map, Function.comp_def]
+    rw [this, h3, flatMap_runs_values, hruns]
+  · have : (chunks.flatMap (·.max)).map (fun p => some p.2) =
+        (chunks.flatMap (fun c => c.max.map fun p => (p.1, some p.2))).map (·.2) := by
+      simp [List.map_flatMap, List.map_map, Function.comp_def]
+    rw [this, h4, flatMap_runs_values, hruns]
+
+/-- **C36, totals**: Σ count = number of non-NaN raw samples, Σ sum = Σ of their values -/
+theorem C36_totals (r : Int) (hr : 0 < r) (data : List Raw) (nc : Nat) (hnc : 0 < nc) (ok : RawOK data) :
+    ∃ chunks, downsampleRaw data r nc = some chunks ∧
+      ((chunks.flatMap (·.count)).map (·.2)).sum = ((dropNaN data).length : Int) ∧
+      ((chunks.flatMap (·.sum)).map (·.2)).sum = ((dropNaN data).map (·.2)).sum := by
+  obtain ⟨chunks, hc, h1, h2, _, _⟩ := C36_values r hr data nc hnc ok
+  refine ⟨chunks, hc, ?_, ?_⟩
+  · rw [h1, sum_lengths, runs_flatten]
+  · rw [h2, sum_sums, runs_flatten]
+
+/-- what `floatBatch_shape` says about a chunk `c` made from batch `b` -/
+private theorem chunk_shape {r : Int} (hr : 0 < r) {nc : Nat} {data : List Raw} (ok : RawOK data)
+    (hflat : (batchesOf r nc data).flatten = dropNaN data) (hne : ∀ b ∈ batchesOf r nc data, b ≠ [])
+    (b : List Pt) (hb : b ∈ batchesOf r nc data) (c : Chunk) (hfc : floatBatch b r = some c) :
+    ∃ ts t0 v0, b.head? = some (t0, v0) ∧ c.count.map (·.1) = ts ∧ c.sum.map (·.1) = ts ∧ c.min.map (·.1) = ts ∧
+      c.max.map (·.1) = ts ∧ ts.Pairwise (· < ·) ∧ (∀ t ∈ ts, t0 ≤ t ∧ t ≤ lastT b) ∧ ts.getLast? = some (lastT b) ∧
+      ts.head? = some c.mint ∧ c.maxt = lastT b := by
+  obtain ⟨hs, h0, hb64, _, t0, v0, lt, lv, hh, hl, hlt⟩ := batch_facts (r := r) (nc := nc) ok hflat hne b hb
+  obtain ⟨c', ts, hc', p1, p2, p3, p4, p5, p6, p7, p8, p9, _⟩ :=
+    floatBatch_shape r hr b t0 v0 lt lv hh hl h0 hs (hb64 _ (List.mem_of_getLast? hl))
+  rw [hfc] at hc'
+  cases hc'
+  rw [hlt]
+  exact ⟨ts, t0, v0, hh, p1, p2, p3, p4, p5, p6, p7, p8, p9⟩
+
+/-- **C36, chunk layout**: in every chunk the four aggregates carry the same strictly increasing
+    timestamps, `[MinTime, MaxTime]` is [first, last] of them, and consecutive chunks do not
+    overlap (`MaxTime` of a chunk < `MinTime` of every later one). -/
+theorem C36_chunks_ordered (r : Int) (hr : 0 < r) (data : List Raw) (nc : Nat) (hnc : 0 < nc) (ok : RawOK data) :
+    ∃ chunks, downsampleRaw data r nc = some chunks ∧
+      (∀ c ∈ chunks, ∃ ts, c.count.map (·.1) = ts ∧ c.sum.map (·.1) = ts ∧ c.min.map (·.1) = ts ∧ c.max.map (·.1) = ts ∧
+        ts.Pairwise (· < ·) ∧ ts.head? = some c.mint ∧ ts.getLast? = some c.maxt) ∧
+      chunks.Pairwise (fun c1 c2 => c1.maxt < c2.mint) := by
+  obtain ⟨chunks, hc, hflat, hne, _, hmap⟩ := downsampleRaw_batches r hr data nc hnc ok.sorted ok.nonneg
+  have hshape := chunk_shape hr (nc := nc) ok hflat hne
+  refine ⟨chunks, hc, ?_, ?_⟩
+  · refine forall_of_map_some (fun b => floatBatch b r) (fun c => ∃ ts, c.count.map (·.1) = ts ∧ c.sum.map (·.1) = ts ∧
+        c.min.map (·.1) = ts ∧ c.max.map (·.1) = ts ∧ ts.Pairwise (· < ·) ∧ ts.head? = some c.mint ∧
+        ts.getLast? = some c.maxt) _ _ hmap ?_
+    intro b hb c hfc
+    obtain ⟨ts, _, _, _, p1, p2, p3, p4, p5, _, p7, p8, p9⟩ := hshape b hb c hfc
+    exact ⟨ts, p1, p2, p3, p4, p5, p8, p9 ▸ p7⟩
+  · have hsorted : Sorted (batchesOf r nc data).flatten := hflat ▸ sorted_dropNaN ok.sorted
+    refine pairwise_of_map_some _ _ _ _ _ hmap (List.pairwise_flatten.mp hsorted).2 ?_
+    intro b1 hb1 b2 hb2 c1 c2 hlt h1 h2
+    obtain ⟨_, _, _, _, _, _, _, _, _, _, _, _, q9⟩ := hshape b1 hb1 c1 h1
+    obtain ⟨ts2, t0, v0, hh2, _, _, _, _, _, p6, _, p8, _⟩ := hshape b2 hb2 c2 h2
+    -- the last sample of b1 is before the first of b2, which is at most c2.mint
+    have hl1 : ∃ lv, (lastT b1, lv) ∈ b1 := by
+      obtain ⟨_, _, _, _, _, _, lt, lv, _, hl, hlt'⟩ := batch_facts (r := r) (nc := nc) ok hflat hne b1 hb1
+      exact ⟨lv, hlt' ▸ List.mem_of_getLast? hl⟩
+    obtain ⟨lv, hl1⟩ := hl1
+    have hmem2 : (t0, v0) ∈ b2 := by
+      cases b2 with
+      | nil => simp at hh2
+      | cons p ps => simp at hh2; rw [← hh2]; simp
+    have h12 := hlt _ hl1 _ hmem2
+    have hmint : t0 ≤ c2.mint := (p6 c2.mint (List.mem_of_mem_head? p8)).1
+    simp only at h12
+    omega
+
+/-- **C36, read-back**: reading the count (sum, min, max) aggregate of the produced chunks through
+    the querier's chunk iterator returns exactly the concatenation of the sub-chunks — i.e. the
+    window samples of `C36_windows`. -/
+theorem C36_readback (r : Int) (hr : 0 < r) (data : List Raw) (nc : Nat) (hnc : 0 < nc) (ok : RawOK data) :
+    ∃ chunks, downsampleRaw data r nc = some chunks ∧
+      chunkSeriesIter (chunks.map (·.count)) = chunks.flatMap (·.count) ∧
+      chunkSeriesIter (chunks.map (·.sum)) = chunks.flatMap (·.sum) ∧
+      chunkSeriesIter (chunks.map (·.min)) = chunks.flatMap (·.min) ∧
+      chunkSeriesIter (chunks.map (·.max)) = chunks.flatMap (·.max) := by
+  obtain ⟨chunks, hc, hsh, hord⟩ := C36_chunks_ordered r hr data nc hnc ok
+  -- generic: a selector whose timestamps are those of the chunk
+  have key : ∀ (sel : Chunk → List Pt), (∀ c ∈ chunks, ∃ ts, (sel c).map (·.1) = ts ∧ ts.head? = some c.mint ∧
+      ts.getLast? = some c.maxt) → chunkSeriesIter (chunks.map sel) = chunks.flatMap sel := by
+    intro sel hsel
+    rw [chunkSeriesIter_ordered, List.flatMap_def]
+    · intro l hl
+      obtain ⟨c, hcm, rfl⟩ := List.mem_map.mp hl
+      obtain ⟨ts, h1, h2, _⟩ := hsel c hcm
+      intro he
+      rw [he] at h1
+      rw [← h1] at h2
+      simp at h2
+    · rw [List.pairwise_map]
+      refine hord.imp_of_mem ?_
+      intro c1 c2 hc1 hc2 hlt
+      obtain ⟨ts1, e1, _, l1⟩ := hsel c1 hc1
+      obtain ⟨ts2, e2, f2, _⟩ := hsel c2 hc2
+      rw [← e1, List.getLast?_map] at l1
+      rw [← e2, List.head?_map] at f2
+      cases hl : (sel c1).getLast? with
+      | none => rw [hl] at l1; simp at l1
+      | some p =>
+        cases hh : (sel c2).head? with
+        | none => rw [hh] at f2; simp at f2
+        | some q =>
+          rw [hl] at l1; rw [hh] at f2
+          simp only [Option.map_some, Option.some.injEq] at l1 f2
+          simp only [chunkAtT, hl]
+          omega
+  refine ⟨chunks, hc, key _ ?_, key _ ?_, key _ ?_, key _ ?_⟩
+  · intro c hcm; obtain ⟨ts, p1, p2, p3, p4, _, p6, p7⟩ := hsh c hcm; exact ⟨ts, p1, p6, p7⟩
+  · intro c hcm; obtain ⟨ts, p1, p2, p3, p4, _, p6, p7⟩ := hsh c hcm; exact ⟨ts, p2, p6, p7⟩
+  · intro c hcm; obtain ⟨ts, p1, p2, p3, p4, _, p6, p7⟩ := hsh c hcm; exact ⟨ts, p3, p6, p7⟩
+  · intro c hcm; obtain ⟨ts, p1, p2, p3, p4, _, p6, p7⟩ := hsh c hcm; exact ⟨ts, p4, p6, p7⟩
+
 /-- Regenerated obligations: the conditions and expressions of the source that the model
     transliterates (a change of any of them breaks this theorem at `lake build` time). -/
 theorem C36_source_facts :
@@ -110,5 +314,13 @@ example : runs 50 [(10, 1), (20, 3), (60, 5), (70, 2)] = [(49, [(10, 1), (20, 3)
 example : (floatBatch [(10, 1), (20, 3), (60, 5), (70, 2)] 50).map (·.sum) = some [(49, 4), (70, 7)] := by decide
 example : Sorted [(10, 1), (20, 3), (60, 5), (70, 2)] := by simp [Sorted]
 example : Finite 5 := by decide
+-- the whole-series hypotheses are met by a series with a NaN, a window-end sample and a gap …
+example : RawOK [(1, some 1), (2, none), (49, some 3), (50, some 2), (260, some 9)] := by
+  refine ⟨by simp [SortedRaw], by decide, by decide, by decide⟩
+-- … on which two chunks are produced for numChunks = 2 (batch size 3, extended to the window end)
+example : (downsampleRaw [(1, some 1), (2, none), (49, some 3), (50, some 2), (260, some 9)] 50 2).map
+    (fun cs => cs.map (·.sum)) = some [[(49, 4)], [(99, 2), (260, 9)]] := by decide
+example : batchesOf 50 2 [(1, some 1), (2, none), (49, some 3), (50, some 2), (260, some 9)] =
+    [[(1, 1), (49, 3)], [(50, 2), (260, 9)]] := by decide
 
 end Thanos.Downsample
